@@ -276,3 +276,31 @@ def spherical_detector_points_scale(c):
     c.ensures("positions-are-dimensionless", c.eq(a['pos'], b['pos']))
     c.ensures("radius-in-units-of-one-over-k", c.and_(*[c.eq(a['pos'][0][i], a['k'] * rad[i]) for i in range(2)]))
     c.ensures("size-parameter", c.eq(a['k'] * a['scatterer'].r, b['k'] * b['scatterer'].r))
+
+
+@contract("C04", "multi_colour_unit_change_native", [SI + "prep_schema", SI + "calc_holo", IF + "ImageFormation._calculate_multiple_color_scattered_field"],
+          native_only=True, bounded="native sampling: two unlabelled wavelengths given as a list, 6x6 detector, Mie-plus-lens theory, unit changes over "
+                                    "twelve orders of magnitude")
+def multi_colour_unit_change_native(c):
+    """several illumination wavelengths given as a plain list (the library labels the channels itself): multiplying every length by s
+    leaves every channel's hologram unchanged, and each channel equals the single-colour hologram at its wavelength"""
+    from holopy.scattering.theory import MieLens
+    from holopy.core.metadata import detector_grid
+    s = _scale(c)
+    n, r = c.real("n", sample=(1.4, 1.7)), c.real("r", sample=(0.3, 0.8))
+    lams = [c.real("wavelen_0", sample=(0.6, 0.7)), c.real("wavelen_1", sample=(0.45, 0.55))]
+    th = MieLens(lens_angle=0.8)
+
+    def holo(f, wl):
+        det = detector_grid(6, 0.1 * f)
+        sph = Sphere(n=n, r=r * f, center=(0.3 * f, 0.25 * f, 5 * f))
+        return calc_holo(det, sph, medium_index=1.33, illum_wavelen=wl, illum_polarization=(1, 0), theory=th)
+    ref = holo(1.0, list(lams))
+    o = c.outcome(holo, s, [w * s for w in lams])
+    c.ensures("no-unexpected-exception", o.ok, detail="scale %r: %r" % (s, o.exc))
+    if o.ok:
+        c.ensures("every-channel-unchanged-by-the-unit-change", bool(np.allclose(o.value.values, ref.values, rtol=1e-8, atol=1e-10)))
+        for i, w in enumerate(lams):
+            one = holo(s, w * s)
+            c.ensures("channel-equals-the-single-colour-hologram", bool(np.allclose(np.asarray(o.value.values[i]).squeeze(), one.values.squeeze(),
+                                                                                     rtol=1e-8, atol=1e-10)))
